@@ -387,9 +387,14 @@ MBitfield(k, c) ==
          unch == UnchokedNum < MaxUnchoked /\ mp[k].amCh IN
      /\ c \in PickSetIn(st, m1, k)
      /\ mp' = [m1 EXCEPT ![k] = [@ EXCEPT !.amInt = (c # None), !.amCh = @ /\ ~unch]]
-     /\ Reply(k, [t |-> "SendState", unch |-> unch, amInt |-> (c # None)])
+     \* the unchoke itself is announced through the broadcast channel, like the rotation's decisions
+     /\ Reply(k, [t |-> "SendState", unch |-> FALSE, amInt |-> (c # None)])
+     /\ bq' = IF unch THEN [x \in Peers |-> IF h[x].alive
+                                            THEN Append(bq[x], [t |-> "state", v |-> IF x = k THEN "U" ELSE "-"])
+                                            ELSE bq[x]]
+              ELSE bq
   /\ Quiet
-  /\ UNCHANGED <<st, round, bq, stored, panic>>
+  /\ UNCHANGED <<st, round, stored, panic>>
 
 MRequest(k) ==
   /\ MHead(k, "Request") /\ Pop
